@@ -12,7 +12,7 @@
    error sets; it is not proved for all documents. *)
 From Coq Require Import ZArith List String Bool.
 From TV Require Import Py.Prelude Model.Schema Model.ImplInput Model.ImplExec Model.Envelope
-     Model.ImplValidate Model.SpecValidate Model.RunValidate Proofs.ValidateProofs Gen.Wiring_gen Proofs.Wiring.
+     Model.ImplValidate Model.SpecValidate Model.RunValidate Proofs.ValidateProofs Proofs.ValidateRules Gen.Wiring_gen Proofs.Wiring.
 Import ListNotations.
 Open Scope string_scope.
 Open Scope list_scope.
@@ -81,6 +81,19 @@ Definition cyc : list fragment :=
 Example C07_cycle_reported : NoDup (map fr_name cyc) /\ cycle_rule cyc <> Some [].
 Proof. split; [repeat constructor; cbn; intuition discriminate|vm_compute; discriminate]. Qed.
 
+(* three more rules proved exact for every schema and document (Proofs/ValidateRules.v); here the
+   direction C07 needs: what the specification forbids is reported.  The spread list the last two
+   read from the walk's shared context is exactly the document's (C06_rules_read_the_documents_spreads). *)
+Theorem C07_second_anonymous_operation_reported doc :
+  r_lone_anonymous doc = false -> lone_anonymous_errors (operations doc) <> [].
+Proof. intros H E. apply lone_anonymous_exact_doc in E. congruence. Qed.
+Theorem C07_unused_fragment_reported V doc :
+  r_fragments_used V doc = false -> must_be_used_errors (fragments doc) (frag_spreads (walked V doc)) <> [].
+Proof. intros H E. apply must_be_used_exact in E. congruence. Qed.
+Theorem C07_undefined_spread_target_reported V doc :
+  r_spread_targets V doc = false -> spread_target_errors (fragments doc) (frag_spreads (walked V doc)) <> [].
+Proof. intros H E. apply spread_targets_exact in E. congruence. Qed.
+
 Print Assumptions C07_source_invokes_every_supported_rule.
 Print Assumptions C07_cycle_rule_exact.
 Print Assumptions C07_fragment_cycle_refuses.
@@ -92,3 +105,6 @@ Print Assumptions C07_repeated_variable_reported.
 Print Assumptions C07_repeated_argument_reported.
 Print Assumptions C07_repeated_directive_reported.
 Print Assumptions C07_repeated_input_field_reported.
+Print Assumptions C07_second_anonymous_operation_reported.
+Print Assumptions C07_unused_fragment_reported.
+Print Assumptions C07_undefined_spread_target_reported.
